@@ -1,6 +1,6 @@
 """Regression runner over the stored patch corpora (not a check).
 
-    /venv/bin/python -m sa.regress [--dir /verif/seeded|/verif/benign|<dir>] [--props C01,C02] [--ids a,b] [--jobs 16] [-v]
+    /venv/bin/python -m sa.regress [--dir /verif/seeded|/verif/benign|<dir>] [--props C01,C02] [--ids a,b] [--jobs 16] [--own] [-v]
 
 Each sub-directory with a patch.diff is applied *in memory* to the current /repo sources; every selected
 property check is evaluated on the result. For `seeded` corpora the expectation is a violation by the
@@ -18,6 +18,11 @@ from concurrent.futures import ProcessPoolExecutor
 
 def _one(args):
     d, props, root = args
+    if props == ["OWN"]:
+        try:
+            props = [json.load(open(os.path.join(d, "meta.json"))).get("property") or os.path.basename(d)[:3]]
+        except Exception:
+            props = [os.path.basename(d)[:3]]
     from .check import evaluate
     from .report import VIOLATION, UNDECIDED, load_known
     from .selftest import _seed_overrides
@@ -49,11 +54,14 @@ def main(argv=None):
     ap.add_argument("--jobs", type=int, default=16)
     ap.add_argument("--repo", default="/repo")
     ap.add_argument("-v", action="store_true")
+    ap.add_argument("--own", action="store_true", help="seeded corpora: evaluate only the seed's own property (20 times cheaper)")
     a = ap.parse_args(argv)
     verif = os.path.dirname(os.path.dirname(os.path.abspath(__file__)))
     dirs = [a.dir] if a.dir else [os.path.join(verif, "seeded"), os.path.join(verif, "benign")]
     allprops = sorted(os.path.basename(p)[:-3].upper() for p in glob.glob(os.path.join(verif, "sa", "props", "c*.py")))
     props = a.props.split(",") if a.props else allprops
+    if a.own:
+        props = ["OWN"]
     rc = 0
     for base in dirs:
         benign = "benign" in os.path.basename(os.path.normpath(base))
@@ -75,7 +83,7 @@ def main(argv=None):
                 verdict = "silent" if not bad else ("FALSE-ALARM" if any(v[0] == "violation" for v in bad.values()) else "UNDECIDED")
                 ok = not bad
             else:
-                own = out.get(target, ("n/a", []))[0] if target in props else "n/a"
+                own = out.get(target, ("n/a", []))[0] if (target in props or props == ["OWN"]) else "n/a"
                 ok = own == "violation" or own == "n/a"
                 verdict = "caught" if own == "violation" else ("(own check not selected)" if own == "n/a" else f"MISSED(own={own})")
             n_ok += ok
